@@ -105,7 +105,16 @@ impl Property for C05 {
         g.expiry = false; // the clock stands still; TTL-setting commands stay deterministic but TTL readings are compared with ttl anyway
         let gen1 = |s: &mut Src, g: &mut GenCfg| { let mut c = gen_cmd(s, g); if String::from_utf8_lossy(&c[0]).to_uppercase() == "SPOP" { c = vec![b"SCARD".to_vec(), c[1].clone()]; } c };
         // setup commands (sequential, before anything)
-        let setup: Vec<Cmd> = src.list(5, 3, 4, |s| gen1(s, &mut g));
+        let mut setup: Vec<Cmd> = src.list(5, 3, 4, |s| gen1(s, &mut g));
+        // now and then one key holds a collection of 100 elements, and the other client's writes touch its far
+        // end without changing its size (a watched key is its whole value, however large)
+        let big: Option<(Vec<u8>, bool)> = if src.chance(1, 6) { Some((g.key(src), src.chance(1, 2))) } else { None };
+        if let Some((k, zset)) = &big {
+            let mut c = vec![b(if *zset { "ZADD" } else { "RPUSH" }), k.clone()];
+            for i in 0..100 { if *zset { c.push(b(&format!("{}", i))); } c.push(b(&format!("m{:03}", i))); }
+            setup.push(vec![b("DEL"), k.clone()]);
+            setup.push(c);
+        }
         // A's script
         let mut a: Vec<AStep> = Vec::new();
         let n_tx = 1 + src.below(2);
@@ -129,7 +138,14 @@ impl Property for C05 {
             a.push(if src.chance(5, 6) { AStep::Exec } else { AStep::Discard });
         }
         // B's commands and their gap positions (gap i = before A's step i; a.len() = after the last)
-        let mut bcmds: Vec<(usize, Cmd)> = src.list(4, 3, 4, |s| { let pos = s.idx(a.len() + 1); (pos, gen1(s, &mut g)) });
+        let mut bcmds: Vec<(usize, Cmd)> = src.list(4, 3, 4, |s| {
+            let pos = s.idx(a.len() + 1);
+            let c = match &big {
+                Some((k, zset)) if s.chance(1, 2) => { let i = 64 + s.below(36); if *zset { vec![b("ZADD"), k.clone(), b("XX"), b(&format!("{}.5", i)), b(&format!("m{:03}", i))] } else { vec![b("LSET"), k.clone(), b(&format!("{}", i)), b("changed")] } }
+                _ => gen1(s, &mut g),
+            };
+            (pos, c)
+        });
         bcmds.sort_by_key(|x| x.0);
         let overlap_cmd: Option<Cmd> = if overlap_mode { Some(gen1(src, &mut g)) } else { None };
         let yield_bias = 1 + src.below(7);
